@@ -119,10 +119,10 @@ def main(argv=None):
                 attach(scratch, atts, unit.contracts)
                 trusted_paths += [a[1] for a in atts]
                 budget = max([h.timeout or 0 for h in hs] + [300 if args.tier == "quick" else 1800])
-                total_budget = 900 + budget * (1 + len(hs) // max(1, K.JOBS))
+                total_budget = 900 + budget * (1 + len(hs) // max(1, unit.jobs or K.JOBS))
                 log("[%s] kani: %d harnesses on %s (per-harness budget %ds)" % (pid, len(hs), unit.crate, budget))
                 results, shown, secs, out = K.run_kani(scratch.tree, unit.crate, [h.name for h in hs], total_budget, budget,
-                                                       features=unit.features, env=unit.env, cbmc_args=unit.cbmc_args)
+                                                       features=unit.features, env=unit.env, cbmc_args=unit.cbmc_args, jobs=unit.jobs)
                 cmds.append(shown)
                 for h in hs:
                     r = results[h.name]
